@@ -629,7 +629,14 @@ func (c *cluster) witnessStore() (entries int, bad int) {
 		if db == nil {
 			return
 		}
-		rs, err := db.ReadRaftState(shardID, w.id, 0)
+		// the contract of ReadRaftState: the caller names the index of the recorded snapshot
+		// (node.replayLog does the same)
+		ss, err := db.GetSnapshot(shardID, w.id)
+		if err != nil {
+			c.mon.inc("witness-store-unreadable")
+			return
+		}
+		rs, err := db.ReadRaftState(shardID, w.id, ss.Index)
 		if err != nil {
 			if !errors.Is(err, raftio.ErrNoSavedLog) {
 				c.mon.inc("witness-store-unreadable")
@@ -651,8 +658,10 @@ func (c *cluster) witnessStore() (entries int, bad int) {
 				}
 			}
 		}
-		ss, err := db.GetSnapshot(shardID, w.id)
-		if err != nil || pb.IsEmptySnapshot(ss) {
+		c.mon.mu.Lock()
+		c.mon.dist["witness_entries_read_from_store"] += entries
+		c.mon.mu.Unlock()
+		if pb.IsEmptySnapshot(ss) {
 			return
 		}
 		c.mon.count("witness_snapshot_records_checked")
